@@ -521,6 +521,9 @@ func (sp *Space) Judge(seq []int, def int, ni int, want Verdict, got int, ok boo
 		return sp.Rules[seq[pos]].Text()
 	}
 	switch {
+	case want.Kind == -1 && got < 0:
+		return "false-match/" + cls, fmt.Sprintf("rules %q (default type %q): %q is reported as matched, but no rule describes %q",
+			sp.Texts(seq), DefName(def), name, sp.NormN[ni])
 	case want.Kind == -1:
 		return "false-match/" + cls, fmt.Sprintf("rules %q (default type %q): matching %q returned the value of rule #%d %q, but no rule describes %q",
 			sp.Texts(seq), DefName(def), name, got, rule(got), sp.NormN[ni])
@@ -531,4 +534,14 @@ func (sp *Space) Judge(seq []int, def int, ni int, want Verdict, got int, ok boo
 		return "wrong-value/" + cls, fmt.Sprintf("rules %q (default type %q): matching %q returned the value of rule #%d %q; the statement demands the value of one of the rules at %v (%s match has precedence)",
 			sp.Texts(seq), DefName(def), name, got, rule(got), Bits(want.Accept), KindName[want.Kind])
 	}
+}
+
+// Cost orders counterexamples: shorter sequences first, then universe order
+// (the driver keeps the cheapest violation per signature across shards).
+func Cost(seq []int) int {
+	c := len(seq)
+	for _, i := range seq {
+		c = c*1024 + i
+	}
+	return c
 }
